@@ -17,6 +17,7 @@ const (
 	SBV
 	SInt
 	SFP // float64
+	SReal
 )
 
 type Sort struct {
@@ -34,6 +35,8 @@ func (s Sort) String() string {
 		return "Int"
 	case SFP:
 		return "(_ FloatingPoint 11 53)"
+	case SReal:
+		return "Real"
 	}
 	return "?"
 }
@@ -41,6 +44,7 @@ func (s Sort) String() string {
 var BoolSort = Sort{SBool, 0}
 var IntSort = Sort{SInt, 0}
 var FPSort = Sort{SFP, 64}
+var RealSort = Sort{SReal, 0}
 
 func BV(w int) Sort { return Sort{SBV, w} }
 
@@ -53,6 +57,7 @@ type Term struct {
 	name string   // variables / UF names
 	p1   int      // extract hi / extend amount
 	p2   int      // extract lo
+	rat  *big.Rat // rconst
 }
 
 func (t *Term) IsConst() bool { return t.op == "const" }
@@ -826,6 +831,12 @@ func (t *Term) ref() string {
 			}
 			return t.c.String()
 		}
+	case "rconst":
+		n, d := t.rat.Num(), t.rat.Denom()
+		if n.Sign() < 0 {
+			return fmt.Sprintf("(- (/ %s.0 %s.0))", new(big.Int).Neg(n).String(), d.String())
+		}
+		return fmt.Sprintf("(/ %s.0 %s.0)", n.String(), d.String())
 	case "fpconst":
 		b := t.c.Uint64()
 		return fmt.Sprintf("(fp #b%01b #b%011b #x%013x)", b>>63, (b>>52)&0x7ff, b&((1<<52)-1))
@@ -838,7 +849,7 @@ func (t *Term) ref() string {
 // def returns the SMT-LIB definition line for a compound term (or declaration for a var).
 func (t *Term) def() string {
 	switch t.op {
-	case "const", "fpconst":
+	case "const", "fpconst", "rconst":
 		return ""
 	case "var":
 		return fmt.Sprintf("(declare-const %s %s)", t.ref(), t.sort)
@@ -879,4 +890,67 @@ func (t *Term) def() string {
 	}
 	sb.WriteString(")")
 	return sb.String()
+}
+
+
+// ---- reals (the relaxed model of float64 in Int mode) ----
+
+func (c *Ctx) RConst(r *big.Rat) *Term {
+	return c.intern(&Term{op: "rconst", sort: RealSort, name: r.RatString(), rat: new(big.Rat).Set(r)})
+}
+
+func (c *Ctx) RBin(op string, a, b *Term) *Term { // + - * /
+	if a.op == "rconst" && b.op == "rconst" {
+		r := new(big.Rat)
+		switch op {
+		case "+":
+			return c.RConst(r.Add(a.rat, b.rat))
+		case "-":
+			return c.RConst(r.Sub(a.rat, b.rat))
+		case "*":
+			return c.RConst(r.Mul(a.rat, b.rat))
+		case "/":
+			if b.rat.Sign() != 0 {
+				return c.RConst(r.Quo(a.rat, b.rat))
+			}
+		}
+	}
+	return c.mk(op, RealSort, a, b)
+}
+
+func (c *Ctx) RCmp(op string, a, b *Term) *Term { // < <= > >= =
+	if a.op == "rconst" && b.op == "rconst" {
+		k := a.rat.Cmp(b.rat)
+		switch op {
+		case "<":
+			return c.Bool(k < 0)
+		case "<=":
+			return c.Bool(k <= 0)
+		case ">":
+			return c.Bool(k > 0)
+		case ">=":
+			return c.Bool(k >= 0)
+		case "=":
+			return c.Bool(k == 0)
+		}
+	}
+	return c.mk(op, BoolSort, a, b)
+}
+
+func (c *Ctx) ToReal(i *Term) *Term {
+	if i.IsConst() {
+		return c.RConst(new(big.Rat).SetInt(i.c))
+	}
+	return c.mk("to_real", RealSort, i)
+}
+
+// ToIntFloor is SMT-LIB to_int (floor).
+func (c *Ctx) ToIntFloor(r *Term) *Term {
+	if r.op == "rconst" {
+		q := new(big.Int)
+		m := new(big.Int)
+		q.DivMod(r.rat.Num(), r.rat.Denom(), m) // Euclidean: floor for positive denominators
+		return c.Const(IntSort, q)
+	}
+	return c.mk("to_int", IntSort, r)
 }
